@@ -189,7 +189,9 @@ prop('C13', 'model_checking',
      'Schema.tla (mode validate) enumerates from the extracted class tables, for every class, the minimal valid instance and every '
      'declared constraint violated in isolation (required attribute missing / empty, child one below its declared minimum or '
      'one above its declared maximum, each class of wrong value for dateTime / boolean / integer kinds / duration attributes, '
-     'values outside an enumeration for attributes and text) with the contract "only the unmodified instance is valid"; every '
+     'values outside an enumeration for attributes and text) and, for duration-typed attributes and text, every other member of the '
+     'lexical space (all 63 component layouts and two negative ones) with the contract "the unmodified instance and its '
+     'lexical variants are valid, nothing else is"; every '
      'variant is built with the real classes and run through validate.valid_instance at the root and nested under its possible '
      'parents (3 in the quick tier, 40 in the thorough one)',
      'the otherwise-valid instance is generated from the tables; classes with an overridden verify() are exempt from the '
